@@ -116,7 +116,7 @@ def run_property(pid: str, tier: str = "quick", root: str = REPO, overrides: Opt
     for line in extra.get("lines", []):
         say(line)
     wall = time.time() - t0
-    if write and overrides is None:
+    if write and overrides is None and not os.environ.get("TWZSA_NOEVIDENCE"):
         _write_evidence(pid, spec, tier, seed, ctx, results, new, known_hit, extra, wall)
     say(f"== {pid}: {'OK' if status == 0 else ('VIOLATION' if status == 1 else 'ANALYSIS-ERROR')} in {wall:.2f}s")
     return status, {"status": status, "lines": out_lines, "findings": [f.key for f in findings],
